@@ -58,7 +58,7 @@ def programs(tier, rnd: random.Random):
 
 SPEC = semprop.Spec(
     prop="C07", programs=programs, oracles=("diff", "sorted"),
-    theorems=["C07_operand_binding", "C07_reg_num_min", "C07_examples"],
+    theorems=["C07_operand_binding", "C07_reg_num_min", "C07_examples", "C07_width_tables_are_the_compilers"],
     note="every operand spelling class (register class x access letter x single/pair, .new, explicit numbers with and without _NEW, aliases, immediate "
          "letters, load/store widths and signs, jump, PC alias) as read, written and read-after-write; the C side binds operands through its own table (sem/CSem.v)",
 )
